@@ -121,6 +121,7 @@ def handle (op : String) (j : Json) : Except String Json := do
       ("started", arrJ natJ o.started),
       ("errors", arrJ errJ o.errors),
       ("lanes", natJ (lanesOf cs).length),
+      ("running", arrJ natJ o.running),
       ("cmdOut", match o.cmdOut with | none => Json.null | some ss => arrJ slotJ ss)])
   | _ => .error s!"unknown op {op}"
 
